@@ -327,7 +327,7 @@ pub fn run(ctx: &Ctx) {
         "cell",
     );
 
-    let nrand = ctx.tier.pick(100_000u64, 3_000_000u64);
+    let nrand = ctx.tier.pick(600_000u64, 6_000_000u64);
     ctx.random_min(
         "buried-mismatch-trees",
         nrand,
